@@ -71,7 +71,8 @@ func VerifRun_C08e() {
 	files := []string{a, b}
 	// versions of the two files (valid programs with different diagnostics, and one with a syntax error)
 	versA := []string{"x = 1\n", "y = 1\nlocal u = 2\n", "x = \n"}
-	versB := []string{"local r = x\nq = r\n", "local r = y\nq = r\n"}
+	// (the third version of b reads a name nobody defines: going from "y" to "z" changes a diagnostic only in its text)
+	versB := []string{"local r = x\nq = r\n", "local r = y\nq = r\n", "local r = z\nq = r\n"}
 	cur := []string{versA[0], versB[0]}
 	verifVFSPut(a, []byte(cur[0]))
 	verifVFSPut(b, []byte(cur[1]))
@@ -89,7 +90,7 @@ func VerifRun_C08e() {
 			if fi == 0 {
 				txt = versA[verifConcretize(verifRange("ver", 0, 2))]
 			} else {
-				txt = versB[verifConcretize(verifRange("ver", 0, 1))]
+				txt = versB[verifConcretize(verifRange("ver", 0, 2))]
 			}
 			if !unsaved[fi] {
 				_ = l.TextDocumentDidOpen(ctx, lsp.DidOpenTextDocumentParams{TextDocument: lsp.TextDocumentItem{URI: uri, Text: cur[fi]}})
@@ -112,7 +113,7 @@ func VerifRun_C08e() {
 			if fi == 0 {
 				txt = versA[verifConcretize(verifRange("ver", 0, 1))]
 			} else {
-				txt = versB[verifConcretize(verifRange("ver", 0, 1))]
+				txt = versB[verifConcretize(verifRange("ver", 0, 2))]
 			}
 			cur[fi] = txt
 			verifVFSPut(f, []byte(txt))
